@@ -123,10 +123,13 @@ package ice
 //@   site store state#1 assert C03 lite-nomination-only: s.agent.lite && s.agent.gNomAccepted && (hasUseCandidate || hasValidNomination) && object == pair && value == pairSucceeded
 //@   site call shouldSwitchSelectedPair#1 assert C03 switch-decision-on-valid-pair: pair.state == pairSucceeded && s.agent.gNomAccepted && arg1 == pair && arg3 == nominationValue
 //@   site call setSelectedPair#1 assert C03 selects-only-nominated-valid: (hasUseCandidate || hasValidNomination) && s.agent.gNomAccepted && pair.state == pairSucceeded && arg1 == pair
-//@   site store nominateOnBindingSuccess#1 assert C03 deferred-only-when-nominated: (hasUseCandidate || hasValidNomination) && s.agent.gNomAccepted && object == pair && value == true && pair.state != pairSucceeded
+//@   site store nominateOnBindingSuccess#1 assert C03 C20 deferred-only-when-nominated: (hasUseCandidate || hasValidNomination) && s.agent.gNomAccepted && object == pair && value == true && pair.state != pairSucceeded
 //@   site store nominationValueOnBindingSuccess#1 assert C20 deferred-nomination-keeps-its-value: object == pair && value == nominationValue && pair.state != pairSucceeded && s.agent.gNomAccepted
 //@   site call sendBindingSuccess#2 assert C20 an-accepted-nomination-on-a-not-yet-valid-pair-is-remembered-with-its-latest-value: s.agent.gNomAccepted && (hasUseCandidate || hasValidNomination) && pair.state != pairSucceeded ==> pair.nominateOnBindingSuccess && pair.nominationValueOnBindingSuccess == nominationValue
 //@   site call sendBindingSuccess#1 assert C20 rejected-nomination-still-answered: !s.agent.gNomAccepted && arg1 == message
+//@   ghostvar pairAdded bool = false
+//@   site call addPair#1 ghost pairAdded := true
+//@   site call sendBindingSuccess#1 assert C20 a-refused-nomination-leaves-a-parked-one-alone: pairAdded || (pair.nominateOnBindingSuccess == old(pair.nominateOnBindingSuccess) && pair.nominationValueOnBindingSuccess == old(pair.nominationValueOnBindingSuccess))
 
 // ASSUMED (C04): the application's binding-request handler, which runs on the agent loop, does not
 // change agent state behind the agent's back.
